@@ -1134,7 +1134,7 @@ def _shape_id(sh):
 
 def check_memo_shape(sa, sb, cfg):
     """f(*A, **KA) then f(*B, **KB) through memoize: a stored result may only come back for an equal call"""
-    folder = boot.mkscratch("c15-disk-")
+    folder = boot.mkscratch("c15-disk-") if cfg.startswith("disk") else None
     cache = make_cache(cfg, folder)
     try:
         calls = []
@@ -1153,8 +1153,8 @@ def check_memo_shape(sa, sb, cfg):
             return [(findings.exc_sig(e, op="memoize-call-shape", cache=cfg), f"memoize(cache={cfg}) f({sa}); f({sb}) raised {e!r}")], "raised"
     finally:
         del cache
-        gc.collect()
-        shutil.rmtree(folder, ignore_errors=True)
+        if folder:
+            shutil.rmtree(folder, ignore_errors=True)
     same = _shape_id(sa) == _shape_id(sb)
     if r1 != ("r", 1) or r2 not in (("r", 1), ("r", 2)) or len(calls) != r2[1]:
         return [({"kind": "memoize-wrong-result", "cache": cfg, "op": "call-shape"}, f"memoize(cache={cfg}): f({sa}) -> {r1!r}, f({sb}) -> {r2!r}")], "odd"
@@ -1222,7 +1222,7 @@ def plan(tier, seed):
             for cfg in CACHES:
                 n = {"lru-shared": 16, "hybrid-shared": 8, "disk": 4, "disk-nolru": 4}.get(cfg, 2)
                 units += [("memoize", ("memo", cfg, c, n)) for c in range(n)]
-            units += [("memoize-call-shapes", ("memo-shape", cfg)) for cfg in ("simple", "lru", "hybrid", "disk")]
+            units += [("memoize-call-shapes", ("memo-shape", cfg, c, 4)) for cfg in ("simple", "lru", "hybrid", "disk") for c in range(4)]
     table(maxd)  # built once here: the runner forks its workers after plan(), so they inherit it copy-on-write
     groups: dict = {}
     for u in units:
@@ -1428,8 +1428,8 @@ def run_unit(unit):  # noqa: C901, PLR0912, PLR0915
             gc.collect()
             shutil.rmtree(folder, ignore_errors=True)
     elif kind == "memo-shape":
-        cfg = unit[1]
-        for sa in SHAPES:
+        _, cfg, c, n = unit
+        for sa in SHAPES[c::n]:
             for sb in SHAPES:
                 res, oc = check_memo_shape(sa, sb, cfg)
                 same = _shape_id(sa) == _shape_id(sb)
